@@ -20,6 +20,7 @@ func checkC04(e *Engine, r *Report) {
 		"R1 the zone handed back is final (shared with C07): Allocate/realloc return the request's recorded zone read after overcommit handling",
 		"R1 fit check on every admission (shared with C07): allocate/realloc succeed only with the verdict of a fresh overcommit check; zoneFree = capacity - usage; usage sums all sub-zones",
 		"delivery: the SetCpusetMems calls mark the containers pending and the enclosing handlers drain pending updates in the same reply (C05)",
+		"round 4: checkOvercommit lists and records the deficit (-free) of every relevant zone with negative free capacity; zoneUsage's filter is equivalent to 'nodes within zone' in the mask algebra, complete and exclusive; R15 no lost update of Request.zone/types; balloons allocMem re-allocates exactly the containers the allocator holds an assignment for",
 	}
 	r.NotDecided = []string{"capacity arithmetic over histories", "that the node sets are non-empty and name existing nodes with memory (run-time values)"}
 	r.Assumptions = []string{"C05 holds (pending marks are drained into the reply of the same request)"}
